@@ -10,6 +10,7 @@ from ..astutil import attr_stores as _attr_stores, test_atoms, nested_functions,
 from ..cfg import no_exc
 from ..report import Registry, chain, sub
 from ._helpers_rules_d import attr_store_nodes, call_nodes, callee_is, const_is, guard_atom_set, qualname
+from ._helpers_rob_g2 import normal_form, owners_through_helpers, resolve_name, single_defs
 
 R = Registry(
     "C48",
@@ -31,45 +32,136 @@ IDENT = "orm/identity.py"
 IS = f"{STATE}::InstanceState"
 
 
-def _test_nodes(g, text: str) -> List[int]:
-    return [n.id for n in g.nodes if n.kind == "test" and unparse(n.stmt.test) == text]
+# ---------------------------------------------------------------------- facts about a state, three-valued
+# The rules below never match the *shape* of an `if`: a test is evaluated three-valued over a few named facts about the
+# state (`<recv>.modified`, `<recv>.session_id` truthy, `<recv>._strong_obj is None`, "an identity map is linked"),
+# everything else in it is unknown.  An edge of the CFG is left out of a path query when the assumed facts make the
+# test come out the other way (so `if not self.session_id: return`, `if self.session_id: ...`, a flag local and a
+# conjunction with something unrelated are all understood alike).
+def _fact(e, recv="self", linked=()):
+    """(fact name, polarity) for an atom about the state `recv`, or None."""
+    if isinstance(e, ast.Attribute) and dotted(e.value) == recv:
+        if e.attr == "modified":
+            return ("modified", True)
+        if e.attr == "session_id":
+            return ("attached", True)
+    if isinstance(e, ast.Name) and e.id in linked:
+        return ("linked", True)
+    if isinstance(e, ast.Compare) and len(e.ops) == 1 and const_is(e.comparators[0], None) and isinstance(e.ops[0], (ast.Is, ast.IsNot)):
+        pos = isinstance(e.ops[0], ast.Is)
+        if dotted(e.left) == f"{recv}._strong_obj":
+            return ("no-strong-ref", pos)
+        if dotted(e.left) == f"{recv}.session_id":
+            return ("attached", not pos)
+        if isinstance(e.left, ast.Name) and e.left.id in linked:
+            return ("linked", not pos)
+    return None
+
+
+def _tv(e, val, env=None, recv="self", linked=(), depth=0):
+    """three-valued truth of test `e` when the facts in `val` ({fact: bool}) are known and nothing else is"""
+    env = env or {}
+    if isinstance(e, ast.BoolOp):
+        vs = [_tv(v, val, env, recv, linked, depth) for v in e.values]
+        if isinstance(e.op, ast.And):
+            return False if any(v is False for v in vs) else (True if all(v is True for v in vs) else None)
+        return True if any(v is True for v in vs) else (False if all(v is False for v in vs) else None)
+    if isinstance(e, ast.UnaryOp) and isinstance(e.op, ast.Not):
+        v = _tv(e.operand, val, env, recv, linked, depth)
+        return None if v is None else not v
+    if isinstance(e, ast.Call) and isinstance(e.func, ast.Name) and e.func.id == "bool" and len(e.args) == 1 and not e.keywords:
+        return _tv(e.args[0], val, env, recv, linked, depth)
+    if isinstance(e, ast.Name) and e.id in env and e.id not in linked and depth < 4:
+        return _tv(env[e.id], val, env, recv, linked, depth + 1)
+    fa = _fact(e, recv, linked)
+    if fa and fa[0] in val:
+        return val[fa[0]] == fa[1]
+    return None
+
+
+def _assuming(g, val, env=None, recv="self", linked=()):
+    """edge_ok: normal edges only, and no branch outcome that contradicts the assumed facts"""
+    def ok(a, b, lab):
+        if lab == "exc":
+            return False
+        n = g.nodes[a]
+        if n.kind == "test" and lab in ("true", "false"):
+            t = getattr(n.stmt, "test", None)
+            if t is not None:
+                v = _tv(t, val, env, recv, linked)
+                if v is not None and v != (lab == "true"):
+                    return False
+        return True
+    return ok
+
+
+def _bool_env(fn) -> Dict[str, ast.expr]:
+    """single-assignment locals (conditions / aliases spelled through a local)"""
+    return single_defs(fn)
+
+
+def _nf(ctx, f, keep=()):
+    """normal form: extracted helpers inlined (also `state._helper(...)` on another object), call-free
+    single-assignment locals resolved"""
+    return normal_form(ctx, f, keep=keep, alias="all")
+
+
+def _is_obj_call(v, recv="self") -> bool:
+    return isinstance(v, ast.Call) and not v.args and not v.keywords and dotted(v.func) == f"{recv}.obj"
 
 
 @R.rule("C48-R1", floor=4, template="T-PATH",
         desc="_modified_event: every normal path that sets modified=True on an attached state assigns "
              "_strong_obj = self.obj() and adds the state to instance_dict._modified")
 def r1(ctx):
-    f = ctx.func(f"{IS}._modified_event")
+    f0 = ctx.func(f"{IS}._modified_event")
+    f = _nf(ctx, f0)
     g = ctx.cfg(f)
+    env = _bool_env(f.node)
     mod = attr_store_nodes(g, "modified", lambda v: const_is(v, True), "self")
     ctx.require(mod, "_modified_event never sets self.modified = True")
     strong = attr_store_nodes(g, "_strong_obj", lambda v: not const_is(v, None), "self")
-    sid_tests = set(_test_nodes(g, "self.session_id"))
-    w = g.must_pass(mod, [g.exit], strong, edge_ok=lambda a, b, l: l != "exc" and not (a in sid_tests and l == "false"))
-    ctx.check(w is None and bool(strong) and bool(sid_tests), f"{f.key}:strong-reference",
+    # an attached state: branch outcomes that mean `not self.session_id` are not on the paths in question
+    w = g.must_pass(mod, [g.exit], strong, edge_ok=_assuming(g, {"attached": True}, env))
+    # ... and the exemption really is about attachment: without it the store is NOT on every path (otherwise the
+    # rule would not have understood the guard) -- or the store is unconditional, which is fine too
+    ctx.check(w is None and bool(strong), f"{f.key}:strong-reference",
               "a path marks an attached state modified without assigning self._strong_obj", "modified=True & session_id -> _strong_obj assigned", f.loc, w)
     # the value is the instance itself
-    objs = {n for n, v, st in name_stores(f.node) if isinstance(v, ast.Call) and callee_is(v, "self.obj")}
-    val_ok = bool(strong) and all((isinstance(g.node(n).stmt.value, ast.Name) and g.node(n).stmt.value.id in objs)
-                                  or (isinstance(g.node(n).stmt.value, ast.Call) and callee_is(g.node(n).stmt.value, "self.obj")) for n in strong)
+    binds: Dict[str, list] = {}
+    for n, v, st in name_stores(f.node):
+        binds.setdefault(n, []).append(v)
+    objs = {n for n, vs in binds.items() if vs and all(v is not None and _is_obj_call(resolve_name(v, env)) for v in vs)}
+
+    def is_inst(v, depth=0):
+        v = resolve_name(v, env)
+        return _is_obj_call(v) or (isinstance(v, ast.Name) and v.id in objs)
+    val_ok = bool(strong) and all(is_inst(g.node(n).stmt.value) for n in strong)
     ctx.check(val_ok, f"{f.key}:strong-reference-is-the-instance", "_strong_obj is not assigned the result of self.obj()", "_strong_obj = self.obj()", f.loc)
     # membership in the identity map's modified set
-    idict = {n for n, v, st in name_stores(f.node) if isinstance(v, ast.Call) and callee_is(v, "self._instance_dict")}
-    adds = call_nodes(g, lambda c: isinstance(c.func, ast.Attribute) and c.func.attr == "add" and isinstance(c.func.value, ast.Attribute) and c.func.value.attr == "_modified"
-                      and dotted(c.func.value.value) in idict and c.args and dotted(c.args[0]) == "self")
-    id_tests = {t for nm in idict for t in _test_nodes(g, nm)}
-    w = g.must_pass(mod, [g.exit], adds, edge_ok=lambda a, b, l: l != "exc" and not (a in id_tests and l == "false"))
+    idict = {n for n, vs in binds.items() if vs and all(isinstance(v, ast.Call) and callee_is(v, "self._instance_dict") for v in vs)}
+
+    def is_idict(e):
+        e = resolve_name(e, {k: v for k, v in env.items() if k not in idict})
+        return (isinstance(e, ast.Name) and e.id in idict) or (isinstance(e, ast.Call) and callee_is(e, "self._instance_dict"))
+
+    def is_modset(e):
+        e = resolve_name(e, env)
+        return isinstance(e, ast.Attribute) and e.attr == "_modified" and is_idict(e.value)
+    adds = call_nodes(g, lambda c: isinstance(c.func, ast.Attribute) and c.func.attr == "add" and is_modset(c.func.value)
+                      and len(c.args) == 1 and dotted(c.args[0]) == "self")
+    w = g.must_pass(mod, [g.exit], adds, edge_ok=_assuming(g, {"linked": True}, {k: v for k, v in env.items() if k not in idict}, linked=idict))
     ctx.check(w is None and bool(adds), f"{f.key}:enters-modified-set", "a path marks a state modified without adding it to its identity map's _modified set",
               "instance_dict._modified.add(self) whenever an identity map is linked", f.loc, w)
     # entry condition: also taken for an attached state that has no strong reference yet.  Decided as a
     # boolean function of the three facts (modified, attached, no strong reference); locals bound once are
     # inlined, anything else in the test is a free variable (the implication must hold for all its values).
     guards = [(t, pol) for t, pol in g.edge_guards(mod[0])]
-    env = _single_bindings(f.node)
     relevant = [(t, pol) for t, pol in guards if _FACTS & _atoms_of(t, env)]
     # (dominating tests that mention none of the three facts are about something else and are ignored)
     free = sorted({a for t, _ in relevant for a in _atoms_of(t, env)} | _FACTS)
     missing = []
+    ctx.require(len(free) <= 12, "_modified_event: entry condition has too many free atoms")
     for bits in itertools.product((False, True), repeat=len(free)):
         val = dict(zip(free, bits))
         entered = all(_truth(t, val, env) == pol for t, pol in relevant)
@@ -89,33 +181,13 @@ def r1(ctx):
 _FACTS = {"modified", "attached", "no-strong-ref"}
 
 
-def _single_bindings(fn) -> Dict[str, ast.expr]:
-    by = {}
-    for n, v, st in name_stores(fn):
-        by.setdefault(n, []).append(v)
-    return {n: vs[0] for n, vs in by.items() if len(vs) == 1 and vs[0] is not None}
-
-
-def _fact(e):
-    """(fact name, polarity) for an atom about self, or None."""
-    if isinstance(e, ast.Attribute) and dotted(e.value) == "self":
-        if e.attr == "modified":
-            return ("modified", True)
-        if e.attr == "session_id":
-            return ("attached", True)
-    if isinstance(e, ast.Compare) and len(e.ops) == 1 and dotted(e.left) == "self._strong_obj" and const_is(e.comparators[0], None):
-        if isinstance(e.ops[0], ast.Is):
-            return ("no-strong-ref", True)
-        if isinstance(e.ops[0], ast.IsNot):
-            return ("no-strong-ref", False)
-    return None
-
-
 def _atoms_of(e, env, depth=0) -> Set[str]:
     if isinstance(e, ast.BoolOp):
         return set().union(*[_atoms_of(v, env, depth) for v in e.values])
     if isinstance(e, ast.UnaryOp) and isinstance(e.op, ast.Not):
         return _atoms_of(e.operand, env, depth)
+    if isinstance(e, ast.Call) and isinstance(e.func, ast.Name) and e.func.id == "bool" and len(e.args) == 1 and not e.keywords:
+        return _atoms_of(e.args[0], env, depth)
     if isinstance(e, ast.Name) and e.id in env and depth < 4:
         return _atoms_of(env[e.id], env, depth + 1)
     fa = _fact(e)
@@ -128,6 +200,8 @@ def _truth(e, val, env, depth=0) -> bool:
         return all(vs) if isinstance(e.op, ast.And) else any(vs)
     if isinstance(e, ast.UnaryOp) and isinstance(e.op, ast.Not):
         return not _truth(e.operand, val, env, depth)
+    if isinstance(e, ast.Call) and isinstance(e.func, ast.Name) and e.func.id == "bool" and len(e.args) == 1 and not e.keywords:
+        return _truth(e.args[0], val, env, depth)
     if isinstance(e, ast.Name) and e.id in env and depth < 4:
         return _truth(env[e.id], val, env, depth + 1)
     fa = _fact(e)
@@ -148,9 +222,32 @@ STRONG_OWNERS = {
 }
 
 
+def _clear_nodes(g):
+    """[(cfg node, receiver text)] of `<recv>._strong_obj = None` (also as one target of a chained assignment)"""
+    out = []
+    for n in g.nodes:
+        if n.kind == "stmt" and isinstance(n.stmt, ast.Assign) and const_is(n.stmt.value, None):
+            for t in n.stmt.targets:
+                if isinstance(t, ast.Attribute) and t.attr == "_strong_obj" and dotted(t.value):
+                    out.append((n.id, dotted(t.value)))
+    return out
+
+
+def _unjustified_clear(g, c, recv, env):
+    """witness of a path to the clear `c` on which the state may stay modified and attached, or None"""
+    st = g.node(c).stmt
+    if any(isinstance(t, ast.Attribute) and t.attr == "session_id" and dotted(t.value) == recv for t in st.targets):
+        return None
+    resets = [n.id for n in g.nodes if n.kind == "stmt" and isinstance(n.stmt, ast.Assign)
+              and ((const_is(n.stmt.value, False) and any(isinstance(t, ast.Attribute) and t.attr == "modified" and dotted(t.value) == recv for t in n.stmt.targets))
+                   or (const_is(n.stmt.value, None) and any(isinstance(t, ast.Attribute) and t.attr == "session_id" and dotted(t.value) == recv for t in n.stmt.targets)))]
+    # a path to the clear that neither resets modified / session_id nor has observed modified == False / detached
+    return g.witness([g.entry], [c], avoid=resets, edge_ok=_assuming(g, {"modified": True, "attached": True}, env, recv=recv))
+
+
 @R.rule("C48-R2", floor=12, template="T-OWN/T-PATH",
-        desc="_strong_obj is written only by the enumerated functions; it is cleared only where modified is reset "
-             "(or already false) or session_id is cleared on the same path")
+        desc="_strong_obj is written only by the enumerated functions (or private helpers all of whose callers are); it is "
+             "cleared only where modified is reset (or already false) or session_id is cleared on the same path")
 def r2(ctx):
     found = {}
     for m in ctx.index.all_modules():
@@ -163,46 +260,78 @@ def r2(ctx):
                 if q == "InstanceState":
                     continue  # class-level default
                 found.setdefault(f"{m.relpath}::{q}", f"{m.path}:{n.lineno}")
+    owners = set()
+    helpers = {}
     for fk, loc in sorted(found.items()):
-        ctx.check(fk in STRONG_OWNERS, f"{fk}:writes-_strong_obj", "_strong_obj is written outside the enumerated owners", STRONG_OWNERS.get(fk, ""), loc)
-    # every clearing site
-    for fk in sorted(found):
-        if fk not in STRONG_OWNERS:
-            continue
-        f = ctx.func(fk)
+        acts_for = owners_through_helpers(ctx.index, fk, STRONG_OWNERS) if ctx.index.has(fk) or fk in STRONG_OWNERS else None
+        if fk in STRONG_OWNERS:
+            owners.add(fk)
+            ctx.ok(f"{fk}:writes-_strong_obj", STRONG_OWNERS[fk])
+        elif acts_for:
+            # an extracted private helper: every call site lies in an enumerated owner
+            helpers[fk] = acts_for
+            owners.update(acts_for)
+            ctx.ok(f"{fk}:writes-_strong_obj", "private helper called only by " + ", ".join(a.split("::")[1] for a in acts_for))
+        else:
+            ctx.violation(f"{fk}:writes-_strong_obj", "_strong_obj is written outside the enumerated owners", loc)
+    # every clearing site, seen in the owner with its helpers inlined
+    inlined_into = {}
+    for fk in sorted(owners):
+        f = _nf(ctx, ctx.func(fk))
+        for hk in f.inlined:
+            inlined_into.setdefault(hk, set()).add(fk)
         g = ctx.cfg(f)
-        clears = [n.id for n in g.nodes if n.kind == "stmt" and isinstance(n.stmt, ast.Assign) and const_is(n.stmt.value, None)
-                  and any(isinstance(t, ast.Attribute) and t.attr == "_strong_obj" for t in n.stmt.targets)]
-        for i, c in enumerate(clears):
-            st = g.node(c).stmt
-            recv = [dotted(t.value) for t in st.targets if isinstance(t, ast.Attribute) and t.attr == "_strong_obj"][0]
+        env = _bool_env(f.node)
+        for i, (c, recv) in enumerate(_clear_nodes(g)):
             key = f"{fk}:clear" + (f":{i}" if i else "")
-            same_stmt = any(isinstance(t, ast.Attribute) and t.attr == "session_id" and dotted(t.value) == recv for t in st.targets)
-            if same_stmt:
-                ctx.ok(key, "session_id cleared in the same statement")
-                continue
-            resets = [n.id for n in g.nodes if n.kind == "stmt" and isinstance(n.stmt, ast.Assign)
-                      and ((const_is(n.stmt.value, False) and any(isinstance(t, ast.Attribute) and t.attr == "modified" and dotted(t.value) == recv for t in n.stmt.targets))
-                           or (const_is(n.stmt.value, None) and any(isinstance(t, ast.Attribute) and t.attr == "session_id" and dotted(t.value) == recv for t in n.stmt.targets)))]
-            mod_tests = set(_test_nodes(g, f"{recv}.modified"))
-            # a path to the clear that neither resets modified / session_id nor has observed modified == False
-            w = g.witness([g.entry], [c], avoid=resets, edge_ok=lambda a, b, l: l != "exc" and not (a in mod_tests and l == "false"))
+            w = _unjustified_clear(g, c, recv, env)
             ctx.check(w is None, key, f"{recv}._strong_obj is cleared on a path where the state may stay modified and attached: its pending change can be garbage collected",
                       "modified reset / session_id cleared on every path to the clear", f.loc, None if w is None else g.describe_path(w))
+    # a helper that could not be inlined into (all of) its callers must justify its clears by itself
+    for hk, acts_for in sorted(helpers.items()):
+        if set(acts_for) <= inlined_into.get(hk, set()):
+            continue
+        f = ctx.func(hk)
+        g = ctx.cfg(f)
+        for i, (c, recv) in enumerate(_clear_nodes(g)):
+            w = _unjustified_clear(g, c, recv, _bool_env(f.node))
+            ctx.check(w is None, f"{hk}:clear" + (f":{i}" if i else ""),
+                      f"helper clears {recv}._strong_obj without resetting modified / session_id itself and is not analysable in its callers",
+                      "justified inside the helper", f.loc, None if w is None else g.describe_path(w))
+
+
+def _reestablish_nodes(g, recv, env):
+    """CFG nodes `<recv>._strong_obj = <v>` (v not None) that stand exactly under `recv.modified and recv._strong_obj is None`
+    (whatever the spelling: nested ifs, early returns, a flag local): [(node, value expr)], and the other stores"""
+    good, other = [], []
+    for n in attr_store_nodes(g, "_strong_obj", lambda v: not const_is(v, None), recv):
+        guards = g.edge_guards(n)
+        rel = [(t, pol) for t, pol in guards if _tv(t, {"modified": True, "no-strong-ref": True, "attached": True}, env, recv) is not None
+               or _tv(t, {"modified": False, "no-strong-ref": False, "attached": False}, env, recv) is not None]
+        exact = True
+        for m_, ns_ in itertools.product((False, True), repeat=2):
+            outcomes = [_tv(t, {"modified": m_, "no-strong-ref": ns_}, env, recv) for t, pol in rel]
+            # (guards that mention neither fact -- or an unknown besides them -- make the store rarer than demanded)
+            reached = all(o is not None and o == pol for o, (t, pol) in zip(outcomes, rel))
+            if reached != (m_ and ns_):
+                exact = False
+        (good if exact and len(rel) == len(guards) else other).append(n)
+    return good, other
 
 
 @R.rule("C48-R3", floor=2, template="T-GUARD",
         desc="Session._after_attach re-establishes the strong reference exactly for `modified and _strong_obj is None`, "
              "with the attached instance")
 def r3(ctx):
-    f = ctx.func(f"{SESSION}::Session._after_attach")
+    f0 = ctx.func(f"{SESSION}::Session._after_attach")
+    f = _nf(ctx, f0)
     g = ctx.cfg(f)
     state_p, obj_p = f.params[1], f.params[2]
-    stores = attr_store_nodes(g, "_strong_obj", None, state_p)
-    ctx.require(stores, "_after_attach does not assign state._strong_obj")
-    want = {(f"{state_p}.modified", True), (f"{state_p}._strong_obj is None", True)}
-    good = all(guard_atom_set(g, n) == want for n in stores) and all(dotted(g.node(n).stmt.value) == obj_p for n in stores)
-    ctx.check(good, f"{f.key}:reestablish", "the strong reference is not re-established exactly when the attached state is modified and has none",
+    env = _bool_env(f.node)
+    good, other = _reestablish_nodes(g, state_p, env)
+    ctx.require(good or other, "_after_attach does not assign state._strong_obj")
+    val_ok = all(dotted(resolve_name(g.node(n).stmt.value, env)) == obj_p for n in good + other)
+    ctx.check(bool(good) and not other and val_ok, f"{f.key}:reestablish", "the strong reference is not re-established exactly when the attached state is modified and has none",
               "if state.modified and state._strong_obj is None: state._strong_obj = obj", f.loc)
     # callers hand in the state's own object
     bad = []
@@ -215,6 +344,8 @@ def r3(ctx):
                 st_arg, obj_arg = c.args
                 binds = [v for n, v, s in name_stores(fn.node) if isinstance(obj_arg, ast.Name) and n == obj_arg.id and v is not None]
                 ok = bool(binds) and all(isinstance(v, ast.Call) and isinstance(v.func, ast.Attribute) and v.func.attr == "obj" and unparse(v.func.value) == unparse(st_arg) for v in binds)
+                if isinstance(obj_arg, ast.Call) and isinstance(obj_arg.func, ast.Attribute) and obj_arg.func.attr == "obj" and unparse(obj_arg.func.value) == unparse(st_arg):
+                    ok = True
                 if not ok and not (isinstance(obj_arg, ast.Name) and obj_arg.id in fn.params):
                     bad.append(f"{fn.key}: _after_attach({unparse(st_arg)}, {unparse(obj_arg)})")
     ctx.check(not bad and n_calls >= 3, f"{f.key}:callers-pass-own-object", f"callers pass an object that is not `state.obj()`: {bad}", f"{n_calls} call sites pass state.obj()", f.loc)
@@ -240,27 +371,40 @@ def r4(ctx):
     bad = []
     n = 0
     for name, f in wid.methods.items():
+        env = single_defs(f.node)
         for st in walk_stmts(f.node.body):
             if isinstance(st, ast.Assign):
                 for t in st.targets:
                     if isinstance(t, ast.Subscript) and isinstance(t.value, ast.Attribute) and t.value.attr == "_dict":
                         n += 1
-                        if not (isinstance(st.value, ast.Name) and len(f.params) > 1 and st.value.id == f.params[1]):
+                        v = resolve_name(st.value, env)
+                        if not (isinstance(v, ast.Name) and len(f.params) > 1 and v.id == f.params[1]):
                             bad.append(f"{name}: {unparse(st)}")
     ctx.check(n >= 3 and not bad, f"{IDENT}::_WeakInstanceDict:stores-states", f"the identity map stores something other than the state parameter: {bad}", f"{n} stores of the state", wid.loc)
     base = ctx.index.cls(f"{IDENT}::IdentityMap")
     inc = base.methods.get("_manage_incoming_state")
     rem = base.methods.get("_manage_removed_state")
     ctx.require(inc is not None and rem is not None, "IdentityMap lacks _manage_incoming_state/_manage_removed_state")
-    g = ctx.cfg(inc)
-    adds = call_nodes(g, lambda c: callee_is(c, "self._modified.add") and c.args and dotted(c.args[0]) == inc.params[1])
-    good = bool(adds) and all(guard_atom_set(g, a) == {(f"{inc.params[1]}.modified", True)} for a in adds)
+    inc_n = _nf(ctx, inc)
+    g = ctx.cfg(inc_n)
+    sp = inc.params[1]
+    env = _bool_env(inc_n.node)
+
+    def modset(e):
+        e = resolve_name(e, env)
+        return dotted(e) == "self._modified"
+    adds = call_nodes(g, lambda c: isinstance(c.func, ast.Attribute) and c.func.attr == "add" and modset(c.func.value) and c.args and dotted(c.args[0]) == sp)
+    # every modified incoming state is added: no normal path from entry to exit avoids the add when `state.modified`
+    w = g.must_pass([g.entry], [g.exit], adds, edge_ok=_assuming(g, {"modified": True}, env, recv=sp)) if adds else ["no add"]
     init = base.methods.get("__init__")
     strongset = init is not None and any(isinstance(st, ast.Assign) and any(dotted(t) == "self._modified" for t in st.targets) and isinstance(st.value, ast.Call) and callee_is(st.value, "set") for st in walk_stmts(init.node.body))
-    ctx.check(good and strongset, f"{inc.key}:modified-states-enter-strong-set", "a modified state entering the identity map is not added to the strong _modified set", "if state.modified: self._modified.add(state); _modified is a set()", inc.loc)
-    g = ctx.cfg(rem)
-    disc = call_nodes(g, lambda c: (callee_is(c, "self._modified.discard") or callee_is(c, "self._modified.remove")) and c.args and dotted(c.args[0]) == rem.params[1])
-    ctx.check(bool(disc), f"{rem.key}:removed-states-leave-set", "a state removed from the identity map stays in _modified", "self._modified.discard(state)", rem.loc)
+    ctx.check(w is None and strongset, f"{inc.key}:modified-states-enter-strong-set", "a modified state entering the identity map is not added to the strong _modified set", "if state.modified: self._modified.add(state); _modified is a set()", inc.loc, w if isinstance(w, list) and w != ["no add"] else None)
+    rem_n = _nf(ctx, rem)
+    g = ctx.cfg(rem_n)
+    env = _bool_env(rem_n.node)
+    disc = call_nodes(g, lambda c: isinstance(c.func, ast.Attribute) and c.func.attr in ("discard", "remove") and modset(c.func.value) and c.args and dotted(c.args[0]) == rem.params[1])
+    w = g.must_pass([g.entry], [g.exit], disc, edge_ok=no_exc) if disc else ["no discard"]
+    ctx.check(w is None, f"{rem.key}:removed-states-leave-set", "a state removed from the identity map stays in _modified", "self._modified.discard(state)", rem.loc)
 
 
 def _block_and_index(pm, st):
